@@ -216,6 +216,15 @@ AA_TEMPLATES = [
     ['[$]CC(', ('Cl',), ')[$]'],
     ['[$]', ('C',), '(=O)[$]'],
     ['[$]C', ('S',), 'C[$]'],
+    # an unbracketed upper-case atom directly followed by an aromatic atom (S+c reads like the element symbol Sc)
+    # BEFORE the annotated atom: the annotation must sit on the atom it was written on, identified by its
+    # position in the parse of the clean SMILES
+    ['[$]CSc1ccccc1', ('CH2',), '[$]'],
+    ['[$]CSc1ccncc1', ('CH2',), '[$]'],
+    ['[$]CSc1ccccc1C', ('C',), '(F)[$]'],
+    ['[$]OCSc1ccccc1', ('N',), '[$]'],
+    ['[$]C(Sc1ccccc1)', ('CH2',), ('CH2',), '[$]'],
+    ['[$]', ('CH2',), 'Sc1ccccc1', ('CH2',), '[$]'],
 ]
 CG_TEMPLATES = [
     ['[$]', ('#X',), '[$]'],
@@ -224,6 +233,9 @@ CG_TEMPLATES = [
     ['[$]', ('#X',), '[#Z][$]'],
     ['[$][#Z]', ('#Y',), '[$]'],
     ['[$]', ('#X',), '1[#Z]', ('#Y',), '1[$]'],
+    # no descriptor after the last node: the fragment text ends with the node (and whatever is injected after it)
+    ['[$]', ('#X',), '[$]', ('#Y',)],
+    ['[$][$]', ('#X',), '[#Z]', ('#Y',)],
 ]
 
 
@@ -568,6 +580,70 @@ class C14(common.Prop):
         exc = ('(Some %s)' % coq_err(impl['exc']) if 'exc' in impl else
                'None' if impl.get('extra_nodes', 0) == 0 else '(Some EAssert)')
         return '(CProp %s %s %s %s %s)' % (tbl, lit.b(case['aa']), exc, lit.lst(base), lit.lst(atoms))
+
+    # -- second oracle (Python; used when the Coq side cannot be built) -------------------------------
+    def python_oracle(self, case, impl):
+        if case['kind'] != 'prop':
+            return None
+        def in_class(ents):
+            return sum(1 for e in ents if e[0] == 'P') > 1 or any(e[0] == 'K' and e[1] in ('q', 'x') for e in ents)
+        if 'exc' in impl:
+            if not case['aa'] and any(isinstance(t, dict) and in_class(t['annot']['ents'])
+                                      for f in case['frags'] for t in f['tokens']):
+                return 0                                  # possibly the known class: judged by the Coq predicate only
+            return 9
+        tbl = impl['table']
+
+        def expected(an, d):
+            amap = dict(an['assign'])
+            exp = {k: v for k, v in an['free']}
+            for short, long_, default in ((('q', 'charge', 0.0), ('w', 'weight', 1.0)) if d == 0 else (('w', 'weight', 1.0),)):
+                if short in amap:
+                    if tbl.get(amap[short]) is None:
+                        return None                       # not a number: C20's domain
+                    exp[long_] = tbl[amap[short]]
+                else:
+                    exp[long_] = lit.float_repr(default)
+            if d == 0 and 'fragname' in amap:
+                exp['fragname'] = amap['fragname']
+            if d == 1 and 'x' in amap:
+                exp['chiral'] = amap['x']
+            return exp
+
+        def carries(obs, exp, skip=()):
+            for k, v in exp.items():
+                if k in skip:
+                    continue
+                o = obs.get(k)
+                if isinstance(o, float):
+                    o = lit.float_repr(o)
+                if o != v:
+                    return False
+            return True
+        ans = expand_units(case['units'])
+        for an, obs in zip(ans, impl['base']):
+            exp = expected(an, 0)
+            if exp is not None and not carries(obs, exp):
+                return 7
+        k = 0
+        for f in case['frags']:
+            for tok in f['tokens']:
+                if not isinstance(tok, dict):
+                    continue
+                a = impl['atoms'][k]
+                k += 1
+                exp = expected(tok['annot'], 1 if case['aa'] else 0)
+                if exp is None:
+                    continue
+                uses = sum(1 for an in ans if dict(an['assign']).get('fragname') == f['name'])
+                if len(a['copies']) != uses or uses == 0:
+                    return 11
+                if not case['aa']:
+                    if in_class(tok['annot']['ents']):
+                        continue                          # the known class: judged by the Coq predicate only
+                if not all(carries(c, exp, skip=('fragname',)) for c in a['copies']):
+                    return 8 if case['aa'] else 10
+        return 0
 
     # -- bookkeeping ---------------------------------------------------------------------------
     def known_class(self, case, impl, code):
